@@ -38,10 +38,18 @@
 #if defined(__SANITIZE_ADDRESS__)
 #define VF_ASAN 1
 #endif
+#if defined(__has_feature)
+#if __has_feature(thread_sanitizer)
+#define VF_TSAN 1
+#endif
+#endif
 #ifdef VF_ASAN
 #include <sanitizer/allocator_interface.h>
 #include <sanitizer/common_interface_defs.h>
 #include <sanitizer/lsan_interface.h>
+#endif
+#ifdef VF_TSAN
+#include <sanitizer/common_interface_defs.h>
 #endif
 
 namespace vf {
@@ -488,8 +496,8 @@ inline int main_(int argc, char** argv)
 			a.part = val();
 	}
 	setvbuf(stdout, 0, _IOLBF, 0);
-#ifdef VF_ASAN
-	__sanitizer_set_death_callback(death_callback);
+#if defined(VF_ASAN) || defined(VF_TSAN)
+	__sanitizer_set_death_callback(death_callback); // a sanitizer report leaves the current case on disk
 #endif
 	signal(SIGTERM, term_handler);
 	signal(SIGPIPE, SIG_IGN);
